@@ -1,4 +1,5 @@
 import NavisModel.Model.Resample
+import NavisModel.Model.Sampling
 import NavisModel.Drv.Forest
 import NavisModel.Drv.Proto
 /-!
@@ -14,9 +15,16 @@ Line protocol for C13 (sections separated by ` | `; tables in the forest wire fo
 * `c13.nearest <tol> | <x,y,z x,y,z …> | <id:x,y,z …>` → for every query the admissible ids `a,b;c;…`
 * `c13.dscheck <f|inf> <fix ids,> | <t> | <u>` → `1|0` (`dsCheck`)
 * `c13.round <q>` → `roundHalfEven q`;  `c13.count <total> <res>` → `none | n`
+* `c13.dsg <q|inf> <pres ids,|-|none> <soma ids,|-> | <t>` (`none` = `preserve_nodes=None`, `-` = empty) → `ERR:value` (factor ≤ 1) or the canonical topology of
+  `downsampleNeuronG`/`downsampleG walkRule0` (the as-written model: float factor, `preserve_nodes=None`, soma list)
+  followed by ` # ` and the topology of `downsample t ⌈q⌉ (pres ++ soma)` (equal by `Props.C13.gen_downsample_is_model`)
+* `c13.attach <tol> | <old id:x,y,z …> | <new id:x,y,z …> | <somaA>/<somaB> | <connA>/<connB> | <tagsA>/<tagsB>` with
+  lists `i,j,…` (`-` = None) and tags `name=i,j;name=…` → `exact=<attachOKB> tol=<tolerant> model=<reattachG = B> ties=<n>`
+* `c13.nearestidx <d0,d1,…> | <s s …>` → per `s` the admissible knot indices of `kind='nearest'` (`j` or `j,j+1` half-way)
+* `c13.interpcol <d0,d1,…> | <v0,v1,…> | <s s …>` → `interpCol` per `s`
 -/
 namespace Navis.Drv.C13
-open Navis.Forest Navis.Resample Navis.Proto Navis.Drv.Forest
+open Navis.Forest Navis.Resample Navis.Proto Navis.Drv.Forest Navis.Sampling
 
 def parseRat (s : String) : Option Rat :=
   match (trim s).splitOn "/" with
@@ -65,6 +73,49 @@ def parseIdPt (s : String) : Option (Int × Pt) :=
 
 def b2s (b : Bool) : String := if b then "1" else "0"
 
+def parseRats (s : String) : Option (List Rat) :=
+  let s := trim s
+  if s.isEmpty || s == "-" then some [] else (s.splitOn ",").mapM parseRat
+
+/-- `-` = None, empty = `[]`. -/
+def parseOptInts (s : String) : Option (Option (List Int)) :=
+  let s := trim s
+  if s == "-" then some none else (intList? s).map some
+
+def parseTags (s : String) : Option (Option (List (String × List Int))) :=
+  let s := trim s
+  if s == "-" then some none
+  else if s.isEmpty then some (some [])
+  else ((s.splitOn ";").mapM fun (e : String) =>
+    match e.splitOn "=" with
+    | [k, v] => (intList? v).map fun l => (trim k, l)
+    | _ => none).map some
+
+def parsePair (s : String) : Option (String × String) :=
+  match s.splitOn "/" with
+  | [a, b] => some (trim a, trim b)
+  | _ => none
+
+def attachIds (a : Attach) : List Int :=
+  (a.soma.getD []) ++ (a.conn.getD []) ++ ((a.tags.getD []).flatMap (·.2))
+
+def tolListB (tol : Rat) (old new : List (Int × Pt)) (a b : List Int) : Bool :=
+  a.length == b.length && (a.zip b).all fun e => nearestTolB tol old new e.1 e.2
+
+def attachTolB (tol : Rat) (old new : List (Int × Pt)) (a b : Attach) : Bool :=
+  (match a.soma, b.soma with
+    | none, none => true
+    | some x, some y => tolListB tol old new x y
+    | _, _ => false) &&
+  (match a.conn, b.conn with
+    | none, none => true
+    | some x, some y => tolListB tol old new x y
+    | _, _ => false) &&
+  (match a.tags, b.tags with
+    | none, none => true
+    | some x, some y => x.length == y.length && (x.zip y).all fun e => e.1.1 == e.2.1 && tolListB tol old new e.1.2 e.2.2
+    | _, _ => false)
+
 def run (cmd rest : String) : Option String :=
   match cmd with
   | "resample" =>
@@ -111,6 +162,49 @@ def run (cmd rest : String) : Option String :=
       let t ← parseTable tb
       let u ← parseTable ub
       pure (b2s (dsCheck t u f fix))
+    | _ => none
+  | "dsg" =>
+    match rest.splitOn "|" with
+    | [a, tb] => do
+      let (q, pres, soma) ← match words a with
+        | [q, p, s] => some (q, p, s)
+        | _ => none
+      let q ← if q == "inf" then some none else (parseRat q).map some
+      let pres ← if pres == "none" then some none else if pres == "-" then some (some []) else (intList? pres).map some
+      let soma ← if soma == "-" then some [] else intList? soma
+      let t ← parseTable tb
+      match downsampleNeuronG .le 1 walkRule0 t q pres soma with
+      | none => pure "ERR:value"
+      | some u =>
+        pure (showTopo u ++ " # " ++ showTopo (downsample t (q.map ceilNat) (pres.getD [] ++ soma)))
+    | _ => none
+  | "attach" =>
+    match rest.splitOn "|" with
+    | [a, od, nw, so, co, tg] => do
+      let tol ← parseRat a
+      let old ← (words od).mapM parseIdPt
+      let new ← (words nw).mapM parseIdPt
+      let (sa, sb) ← parsePair so
+      let (ca, cb) ← parsePair co
+      let (ta, tb) ← parsePair tg
+      let A : Attach := { soma := ← parseOptInts sa, conn := ← parseOptInts ca, tags := ← parseTags ta }
+      let B : Attach := { soma := ← parseOptInts sb, conn := ← parseOptInts cb, tags := ← parseTags tb }
+      let M := reattachG attachRule0 old new A
+      let ties := ((attachIds A).filter fun i => !(uniqueNearestB tol old new i)).length
+      pure s!"exact={b2s (attachOKB old new A B)} tol={b2s (attachTolB tol old new A B)} model={b2s (decide (M = B))} ties={ties}"
+    | _ => none
+  | "nearestidx" => do
+    let (a, b) ← split2 rest
+    let ds ← parseRats a
+    let ss ← (words b).mapM parseRat
+    pure (" ".intercalate (ss.map fun s => showNats (nearestIdxSet ds s)))
+  | "interpcol" =>
+    match rest.splitOn "|" with
+    | [a, b, c] => do
+      let ds ← parseRats a
+      let vs ← parseRats b
+      let ss ← (words c).mapM parseRat
+      pure (" ".intercalate (ss.map fun s => showRat (interpCol ds vs s)))
     | _ => none
   | "round" => do
     let q ← parseRat rest
